@@ -74,6 +74,10 @@ namespace nmtools::utl
         {
             // TODO: assert/throw
             if (new_size <= Capacity) {
+                // elements (re-)exposed by growing are value-initialised, as a vector's resize does
+                for (size_type i=size_; i<new_size; i++) {
+                    buffer[(index_type)i] = T{};
+                }
                 size_ = new_size;
             }
             #ifdef NMTOOLS_VERIF
